@@ -8,6 +8,7 @@ import (
 	"strconv"
 	"strings"
 	"sync"
+	"syscall"
 )
 
 // Call is one small call of the code under test, returning everything it produced as a string.
@@ -124,4 +125,25 @@ func clipS(s string) string {
 		return s[:300] + "..."
 	}
 	return s
+}
+
+// WithFDLimit runs f with the process's soft limit on open file descriptors lowered to n (and restores it):
+// code that keeps a descriptor open per item fails under it once it has more items than descriptors.
+// Only for sequential phases (the limit is process wide). It returns false if the limit could not be set.
+func WithFDLimit(n uint64, f func()) bool {
+	var old syscall.Rlimit
+	if err := syscall.Getrlimit(syscall.RLIMIT_NOFILE, &old); err != nil {
+		return false
+	}
+	lim := old
+	lim.Cur = n
+	if lim.Cur > old.Max {
+		return false
+	}
+	if err := syscall.Setrlimit(syscall.RLIMIT_NOFILE, &lim); err != nil {
+		return false
+	}
+	defer syscall.Setrlimit(syscall.RLIMIT_NOFILE, &old)
+	f()
+	return true
 }
